@@ -24,6 +24,8 @@ FIXED = [
  ("C17", "fix: partial pricing read group tables of size zero", "C05|asan:heap-buffer-overflow|mpq_ILLprice_mpartial_group>mpq_ILLprice_init_mpartial_price>primal_phaseI_step", "partial pricing on an LP without rows or without structural columns read empty group tables"),
  ("C05", "fix: singular-basis repair left a fixed column nonbasic at zero instead of at its bound", "C05|opt_primal|resolve-vs-truth", "a fixed column removed from a singular (loaded) basis was set nonbasic at 0 instead of at its bound"),
  ("C17", "fix: dual re-solve after adding columns indexed the old devex reference frame", "C05|asan:heap-buffer-overflow|mpq_ILLprice_update_ddevex_norms>mpq_ILLprice_update_pricing_info>dual_phaseII_step", "opt_dual (DDEVEX) after QSadd_col used a reference frame with the old column count"),
+ ("C05", "fix: loading a basis discards the stored solution of the previous basis", "C05|stale|delete_row", "solve, QSload_basis* with a tight row marked basic, QSdelete_row of that row: the old optimum was still served by the accessors and by QSopt_primal (reported by a mutation sub-agent; C05 stream `basisload` added)"),
+ ("C05", "fix: bound changes keep the retained working basis consistent", "C05|opt_dual|resolve-cert:accessor-cert:bound", "a nonbasic free column given a finite bound stayed free-at-zero in the retained working basis: warm re-solve OPTIMAL outside the bounds / UNBOUNDED (reported by a mutation sub-agent; C05 stream `warm` added)"),
  ("C05", "fix: a basis stored while a row was ranged could not be loaded after QSchange_sense", "C05|delete_col|valid-edit-rejected", "rstat at-upper left from a former range row made ILLbasis_load fail, so later edits/solves returned errors"),
  ("C07", "fix: column index equal to the column count was accepted by the bound accessors", "C07|change_bound:col|accepted", "QSchange_bound/QSget_bound accepted index == ncols (read structmap out of range); QSget_bounds_list ignored bad entries"),
  ("C07", "fix: QSdelete_cols range-checked against the internal column count", "C07|delete_col|asan:SEGV|", "QSdelete_col(s) accepted indices in [ncols, ncols+nrows)"),
